@@ -1752,6 +1752,11 @@ def run_c18(ctx):
                       b"@include \"x\" w = 1;\n", b"  @include\t\"p\\\\q\"\nv = [ 1, 2 ];\n@include \"last\""]
         for fn in ("incfn empty", "incfn null"):
             cases.append("init\n" + fn + "\n" + "".join("lex %s\n" % hx(t) for t in none_texts))
+        # the tokens of a text do not depend on the caller's errno
+        num_texts = [b"port = 8080;", b"a = 017; b = -5L; c = 0x1F; d = 0xFFL; e = 9223372036854775807; f = 1e-400; g = 12;",
+                     b"x = [ 1, 2, 3 ];", b"big = 99999999999999999999;", b"h = 0xFFFFFFFFFFFFFFFFL;"]
+        for en in (34, 22):
+            cases.append("init\n" + "".join("seterrno %d\nlex %s\n" % (en, hx(t)) for t in num_texts))
         res.distribution["include_texts"] = len(inc_texts) + 2 * len(none_texts)
         res.distribution["inputs"] = len(ins)
         res.distribution["bytes"] = sum(len(t) for t in ins)
@@ -1891,6 +1896,28 @@ def run_c03(ctx):
         return l
     correspond(ctx, res, cases, line_filter=keep, oracle=c03_oracle,
                known=lambda s, r, o: match_known("C03", s, r, o), per_proc=8)
+    # a process started with standard input closed (descriptor 0 is what the library's next fopen returns): the reads that
+    # open files - a directory, a missing file, the file itself, nested includes - one per process
+    if rc is None and not res.violations:
+        setup0 = ["init", "fs dir %s" % hx(b"adir"), "fs put %s %s" % (hx(b"self.cfg"), hx(b"@include \"self.cfg\"\n")),
+                  "fs put %s %s" % (hx(b"inc.cfg"), hx(b"z = 1;\n")), "fs put %s %s" % (hx(b"two.cfg"), hx(b"@include \"inc.cfg\"\nw = 2;\n"))]
+        n0 = 0
+        for body in (["reads %s" % hx(b"@include \"adir\"\n")], ["readf %s" % hx(b"adir")], ["readf %s" % hx(b"two.cfg")],
+                     ["reads %s" % hx(b"a = 1;\n@include \"inc.cfg\"\n@include \"adir\"\n")], ["readf %s" % hx(b"self.cfg")],
+                     ["readf %s" % hx(b"nosuch.cfg")], ["fs put %s %s" % (hx(b"d.cfg"), hx(b"@include \"adir\"\n")), "readf %s" % hx(b"d.cfg")]):
+            script = "\n".join(setup0 + body + C03_BATTERY) + "\n"
+            rr = run_single(ctx.runner("asan"), script, line_filter=keep, impl_env={"DRV_CLOSE_STDIN": "1"})
+            res.evaluations += 1
+            n0 += 1
+            orc = c03_oracle(script, rr)
+            if rr["diff"] is not None or orc:
+                text = "# property C03 -- standard input closed before the first call (DRV_CLOSE_STDIN=1)\n%s#--- oracle: %s\n#--- problem: %s\n#--- impl transcript:\n#%s\n" % (
+                    script, orc, rr["diff"], "\n#".join(rr["impl"][-12:]))
+                if orc:
+                    res.violations.append(dict(name="stdin_closed_%d" % n0, replay=text))
+                else:
+                    res.corr_broken.append(text)
+        res.distribution["stdin_closed_cases"] = n0
     # the capacity arithmetic of strbuf.c / strvec.c / the element vectors: MemModel.v against harness/memdrv.c
     if rc is None and not res.violations:
         import memcheck
@@ -2003,6 +2030,12 @@ def run_c08(ctx):
                 for first in (b"1", b"1.5", b"7L"):
                     body += ["reads %s" % hx(b"d = [ " + first + b", " + l + b" ];"), "dump"]
             cases.append("\n".join(body) + "\n")
+        # ... and with the caller's errno preloaded (ERANGE as after an overflowing strtol of the application's own)
+        for i in range(0, len(sub), per):
+            body = ["init"]
+            for l in sub[i:i + per]:
+                body += ["seterrno 34", "reads %s" % hx(b"a = " + l + b";"), "dump"]
+            cases.append("\n".join(body) + "\n")
         res.distribution["second_elements_under_autoconvert"] = 3 * len(sub)
         res.distribution["literals"] = len(lits)
         res.distribution["accepted_by_spec"] = sum(1 for l in lits if isinstance(c08_expect(l), tuple))
@@ -2110,6 +2143,20 @@ def run_c15(ctx):
     res.distribution["grid"] = "3 x 3 locales x 20 calls"
     correspond(ctx, res, cases, drop_prefixes=("L open", "L close"), oracle=oracle,
                known=lambda s, r, o: match_known("C15", s, r, o), per_proc=1)
+    # ---- application code running inside a read (the include function) switches the process-wide locale to the comma one:
+    #      what is read afterwards in the same call, and everything later, equals the C-locale reference ----
+    if rc is None and not res.violations:
+        body = c15_body(None, None)
+        rr = run_single(runner, body, drop_prefixes=("L open", "L close"), impl_env={"DRV_INCFN_SETLOCALE": "xx_XX.utf8"})
+        res.evaluations += 1
+        bad = oracle(body, rr)
+        if rr["diff"] is not None and not bad:
+            bad = ["transcripts differ at line %d: model=%r impl=%r" % rr["diff"]]
+        if bad:
+            res.violations.append(dict(name="incfn_setlocale", replay=(
+                "# property C15 -- the include function switches the process-wide LC_NUMERIC to a comma-decimal locale in the middle "
+                "of a read (DRV_INCFN_SETLOCALE=xx_XX.utf8): %s\n%s#--- impl transcript (tail):\n#%s\n" % (
+                    bad[0], body, "\n#".join(rr["impl"][-30:])))))
     # ---- the thread's locale OBJECT is replaced between calls (freelocale / newlocale, as a server does per request):
     #      a freed '.'-radix object and a fresh ','-radix one may have the same address.  Build without ASan (its
     #      quarantine prevents the reuse); results must equal those of the same calls with no locale at all ----
@@ -2262,6 +2309,31 @@ def run_c13(ctx):
                     "# replay: DRV_FAULT_K=%d DRV_FAULT_K2=%d <fault build> <this script>\n%s#--- FATAL lines: %s\n" % (
                         name, k1, k2, rc, k1, k2, script, fat))))
                 break
+    # ---- the fatal-error function is registered once, on the main thread; the failing call runs on another thread ----
+    if not ctx.replay and not res.violations:
+        script = "\n".join(scs["read_string"]) + "\n"
+        os.environ["DRV_WORKER"] = "1"
+        try:
+            rc0, base = run_k(script, None)
+            al = [l for l in base if l.startswith("ALLOCS ")]
+            if rc0 != 0 or not al:
+                res.corr_broken.append("worker-thread scenario: fault-free run failed rc=%s" % rc0)
+            else:
+                n = int(al[0].split(" ")[1])
+                ks = sorted(set(list(range(1, min(n, 60) + 1)) + list(range(61, n + 1, 7)) + [n]))
+                stats["worker_thread"] = {"allocations": n, "faults_injected": len(ks)}
+                for k in ks:
+                    rck, out = run_k(script, k)
+                    total += 1
+                    fat = [l for l in out if l.startswith("FATAL")]
+                    if not (rck == 0 and len(fat) == 1 and fat[0] == "FATAL fault_seen=1 at_alloc=%d" % k):
+                        res.violations.append(dict(name="worker_fault_%d" % k, replay=(
+                            "# property C13 -- the fatal-error function was registered on the main thread; allocation #%d made to fail "
+                            "inside a call running on another thread: status %s, FATAL lines %s\n# replay: DRV_WORKER=1 DRV_FAULT_K=%d "
+                            "<fault build of harness/drv.c> <this script>\n%s" % (k, rck, fat, k, script))))
+                        break
+        finally:
+            os.environ.pop("DRV_WORKER", None)
     # ---- the C++ binding: every failing allocation inside a Config/Setting call must surface as std::bad_alloc
     #      (Config installs a fatal-error function that throws), never as a crash or std::terminate ----
     if not ctx.replay and not res.violations:
@@ -3249,6 +3321,22 @@ def c02_cases(rng, maxlen, spellings, nrandom):
             for t in sel[i:i + per]:
                 body += ["reads %s" % hx(t), "dump"]
             cases.append("\n".join(body) + "\n")
+    # the caller's errno is not an input of the reader: every kind of numeric literal at the edges of its range is read
+    # the same with errno preloaded with ERANGE (34), EINVAL (22), ENOENT (2) - as after the application's own strtol,
+    # getcwd, fopen - and after a path lookup whose index overflows a long
+    edge = [b"a = 9223372036854775807;", b"a = -9223372036854775808;", b"a = 9223372036854775807L;", b"a = 0xFFFFFFFFFFFFFFFFL;",
+            b"a = 0x7FFFFFFF; b = 0xFFFFFFFF;", b"port = 8080; o = 0777; l = 12L; n = -1;", b"a = [ 2147483647, -2147483648 ];",
+            b"f = 1.5; g = 1e-320; h = 2.5e3;", b"a = 9223372036854775808;", b"x = 0x10000000000000000L;", b"s = \"t\"; k = 5;"]
+    for en in (34, 22, 2):
+        body = ["init"]
+        for t in edge:
+            body += ["seterrno %d" % en, "reads %s" % hx(t), "dump"]
+        cases.append("\n".join(body) + "\n")
+    body = ["init", "reads %s" % hx(b"l = ( 1, 2 );")]
+    for t in edge:
+        body += ["look . %s" % hx(b"l.[99999999999999999999999]"), "reads %s" % hx(t), "dump"]
+    cases.append("\n".join(body) + "\n")
+    stats["texts_with_preloaded_errno"] = 4 * len(edge)
     stats["texts_under_other_options"] = 3 * len(sel)
     stats["texts"] = len(texts)
     return cases, stats
